@@ -1033,7 +1033,7 @@ MANIFEST = {
     "technique": "Coq theorems over a port of Table::Query / match_extra_code / DictEntryIterator / Script- and TableTranslation "
                  "(abstract syllable graph, table index and prism; Poet as oracle) + extracted-model/real-translator correspondence "
                  "+ brute-force reference from the source rows",
-    "text": "Properties_C07.v (42 theorems, no axioms) proves of the model, for every graph, table, prism and input: Table::Query "
+    "text": "Properties_C07.v (51 theorems, no axioms) proves of the model, for every graph, table, prism and input: Table::Query "
             "returns at each end position exactly the index codes labelling a path (codes > 3 syllables through the tail page and "
             "match_extra_code, registered at the farthest end); the script translator's phrase candidates are exactly the table "
             "entries whose code is spelled from 0 (C07_script_candidates_exact, C07_collector_exact), every such entry survives "
@@ -1047,7 +1047,11 @@ MANIFEST = {
             "10/100/1000 with Skip) the first ten keys' entries come first, best head first, followed only by entries of later "
             "keys (full; one globally sorted list is refuted beyond ten keys).  Composition (coq/Lookup/Compose*.v): the graph of "
             "C08's build_syllable_graph satisfies wf_graph and graph_pruned, the index of C06's build_head/compile_vocab satisfies "
-            "wf_table and table_sorted, with end-to-end corollaries from source files, prism and input to candidates.  Tie: generated dictionaries and schemas "
+            "wf_table and table_sorted; table_has of the converted index is C06's enumerate, hence the rows of the source files "
+            "(C07_script_candidates_exact_source_rows: one statement from source rows, prism and input to the phrase candidates); "
+            "the table translator's prism input is built from C09's prism (prism_at) and shown to yield what C09's ExpandSearch / "
+            "GetValue / QuerySpelling return, with end-to-end table corollaries from (source files, syllabary, algebra rules, "
+            "input) to the candidates.  Tie: generated dictionaries and schemas "
             "({script,table} x completion x sentence x delimiters x anchored derive/xform algebra) are deployed with the real "
             "rime_deployer; prism, table index, syllable graph and the full candidate list (type, range, text, code, sentence "
             "components) of the real translators are dumped for every input up to a length bound and random longer ones; the "
